@@ -132,6 +132,7 @@ class SpecDB:
         self.db_cp = 65001
         self.tables = {}          # user tables: name -> {"cols": [...], "rows": [[...]]}
         self.has_validation = True
+        self.bits_override = {}   # (table, column) -> type word as a foreign encoder wrote it (e.g. integer field size 1)
         self.streams = {}
         self.summary = {"codepage": 65001, "title": ["Installation Database", "Patch", "Transform"][ptype], "subject": None,
                         "author": None, "comments": None, "app": None, "uuid": None, "words": None, "ctime": None,
@@ -276,7 +277,8 @@ class SpecDB:
         crow, vrow = [], []
         for n, t in listed.items():
             for i, c in enumerate(t["cols"]):
-                crow.append([n, i + 1, c["name"], col_bits(c)])
+                b = self.bits_override.get((n, c["name"]), col_bits(c))
+                crow.append([n, i + 1, c["name"], b - 0x10000 if b >= 0x8000 else b])
                 vrow.append(validation_row(n, c))
         out["_Columns"] = sorted(crow, key=lambda r: key_of(COLUMNS_COLS, r))
         if self.has_validation:
